@@ -1,15 +1,215 @@
 /-
-  C10 — property theorems (the algorithm-level theorems are added as the models are finished;
-  see DESIGN.md section 6).
+  C10 — FCDeque: "a push at one end is collided with a pop at the other end only when the deque is empty",
+  and a combiner pass over a batch of publication records is explained by a sequential execution.
+
+  Property theorems about the pure transcription of `FCDeque::fc_apply` / `FCDeque::fc_process`
+  (CdsVerif/Algo/FC/Batch.lean; C++: cds/container/fcdeque.h).
+
+  What the code does, exactly (`C10_collide_rule`), for the pair `(itPrev, it)` of neighbouring pending requests:
+     itPrev = pop  at end E, it = push at end E : collided, whatever the deque contains
+     itPrev = pop  at end E, it = push at the other end : collided iff the deque is empty
+     itPrev = push at end E, it = pop  at the other end : collided iff the deque is empty
+     itPrev = push at end E, it = pop  at end E : collided iff the deque is NOT empty
+  The last line is an asymmetry of the C++ (`case op_pop_front: if ( m_Deque.empty() ) switch ( itPrev->op() )
+  { case op_push_back … default: itPrev = it; }`): on an empty deque `push_front(v)` followed by `pop_front()` is not
+  eliminated although it could be.  That is a missed elimination, not an error: `C10_batch_refines` holds.
 -/
 import CdsVerif.Base.Spec
+import CdsVerif.Algo.FC.Batch
 namespace CdsVerif.Props.C10
-open CdsVerif.Lin CdsVerif.Spec
+open CdsVerif.Lin CdsVerif.Spec CdsVerif.Algo.FC
 
 /-- The oracle of tie H is exact: a history of the real container is accepted by the driver iff it is
     linearizable to the sequential specification. -/
 theorem C10_history_oracle_exact  (ops : List (OpRec GOp GRet)) (hwf : ∀ o ∈ ops, o.inv ≤ o.res) :
     linCheck deque ops = true ↔ Linearizable deque ops :=
   linCheck_iff _ ops hwf
+
+/-! ### The collision rule -/
+
+def isPushFront (r : DReq) : Prop := r.kind = .pushFront ∨ r.kind = .pushFrontMove
+def isPushBack (r : DReq) : Prop := r.kind = .pushBack ∨ r.kind = .pushBackMove
+/-- The request works at the front end / at the back end of the deque. -/
+def atFront (r : DReq) : Prop := isPushFront r ∨ r.kind = .popFront
+def atBack (r : DReq) : Prop := isPushBack r ∨ r.kind = .popBack
+
+/-- EXACTLY when `fc_process` collides the neighbouring pending requests `itPrev = prev` and `it`
+    (`empty` = `m_Deque.empty()`).  Nothing else is ever collided (`clear` never). -/
+theorem C10_collide_rule (empty : Bool) (prev it : DReq) :
+    (dequeCollide empty prev it).isSome = true ↔
+      (isPushFront it ∧ (prev.kind = .popFront ∨ (empty = true ∧ prev.kind = .popBack))) ∨
+      (isPushBack it ∧ (prev.kind = .popBack ∨ (empty = true ∧ prev.kind = .popFront))) ∨
+      (it.kind = .popFront ∧ ((empty = true ∧ isPushBack prev) ∨ (empty = false ∧ isPushFront prev))) ∨
+      (it.kind = .popBack ∧ ((empty = true ∧ isPushFront prev) ∨ (empty = false ∧ isPushBack prev))) := by
+  obtain ⟨pk, pv⟩ := prev
+  obtain ⟨ik, iv⟩ := it
+  cases empty <;> cases ik <;> cases pk <;> simp [dequeCollide, isPushFront, isPushBack]
+
+/-- What a collision writes: the pop receives the value of the push (`*recPop.pValPop = *recPush.pValPush;
+    recPop.bEmpty = false`), the push succeeds; one of the two is a push and the other a pop. -/
+theorem C10_collide_values (empty : Bool) (prev it : DReq) (a b : Resp)
+    (h : dequeCollide empty prev it = some (a, b)) :
+    ((isPushFront it ∨ isPushBack it) ∧ (prev.kind = .popFront ∨ prev.kind = .popBack) ∧ a = [1, it.val] ∧ b = [1]) ∨
+    ((isPushFront prev ∨ isPushBack prev) ∧ (it.kind = .popFront ∨ it.kind = .popBack) ∧ a = [1] ∧ b = [1, prev.val]) := by
+  obtain ⟨pk, pv⟩ := prev
+  obtain ⟨ik, iv⟩ := it
+  cases empty <;> cases ik <;> cases pk <;> simp [dequeCollide, isPushFront, isPushBack] at h ⊢ <;>
+    (obtain ⟨rfl, rfl⟩ := h; simp)
+
+/-- THE PROPERTY, on the pair test: requests working at opposite ends are collided only on an empty deque. -/
+theorem C10_cross_end_only_if_empty (empty : Bool) (prev it : DReq)
+    (hx : (atFront prev ∧ atBack it) ∨ (atBack prev ∧ atFront it))
+    (h : (dequeCollide empty prev it).isSome = true) : empty = true := by
+  obtain ⟨pk, pv⟩ := prev
+  obtain ⟨ik, iv⟩ := it
+  cases empty <;> cases ik <;> cases pk <;>
+    simp [dequeCollide, atFront, atBack, isPushFront, isPushBack] at h hx ⊢
+
+/-- … and on an empty deque a push and a pop at opposite ends ARE collided, in either order. -/
+theorem C10_cross_end_if_empty (prev it : DReq)
+    (hx : (isPushFront prev ∧ it.kind = .popBack) ∨ (isPushBack prev ∧ it.kind = .popFront) ∨
+          (prev.kind = .popBack ∧ isPushFront it) ∨ (prev.kind = .popFront ∧ isPushBack it)) :
+    (dequeCollide true prev it).isSome = true := by
+  obtain ⟨pk, pv⟩ := prev
+  obtain ⟨ik, iv⟩ := it
+  cases ik <;> cases pk <;> simp [dequeCollide, isPushFront, isPushBack] at hx ⊢
+
+/-- Same end, pop published before the push: collided regardless of emptiness. -/
+theorem C10_same_end_pop_push (empty : Bool) (prev it : DReq)
+    (hx : (prev.kind = .popFront ∧ isPushFront it) ∨ (prev.kind = .popBack ∧ isPushBack it)) :
+    (dequeCollide empty prev it).isSome = true := by
+  obtain ⟨pk, pv⟩ := prev
+  obtain ⟨ik, iv⟩ := it
+  cases empty <;> cases ik <;> cases pk <;> simp [dequeCollide, isPushFront, isPushBack] at hx ⊢
+
+/-- Same end, push published before the pop: collided iff the deque is NOT empty (the asymmetry of the C++). -/
+theorem C10_same_end_push_pop (empty : Bool) (prev it : DReq)
+    (hx : (isPushFront prev ∧ it.kind = .popFront) ∨ (isPushBack prev ∧ it.kind = .popBack)) :
+    (dequeCollide empty prev it).isSome = true ↔ empty = false := by
+  obtain ⟨pk, pv⟩ := prev
+  obtain ⟨ik, iv⟩ := it
+  cases empty <;> cases ik <;> cases pk <;> simp [dequeCollide, isPushFront, isPushBack] at hx ⊢
+
+/-- THE PROPERTY, on whole batches: every pair that `fc_process` collides on deque `d` in batch `rs` satisfies the
+    collision rule with `empty := d.isEmpty`; in particular a pair working at opposite ends is collided only if
+    `d = []`. -/
+theorem C10_collisions_in_batch (d : List Int) (rs : List DReq) :
+    ∀ pr ∈ dequeCollisions d rs,
+      (dequeCollide d.isEmpty pr.1 pr.2).isSome = true ∧
+      (((atFront pr.1 ∧ atBack pr.2) ∨ (atBack pr.1 ∧ atFront pr.2)) → d = []) := by
+  intro pr hpr
+  have h := (elimGo_pairs dequePart (dequeCollide d.isEmpty) _ none (by intro p hp; cases hp) pr hpr).2.2
+  refine ⟨h, fun hx => ?_⟩
+  have := C10_cross_end_only_if_empty d.isEmpty pr.1 pr.2 hx h
+  simpa using this
+
+/-! ### A combiner pass is a sequential execution of a permutation of the batch -/
+
+/-- `fc_apply` is one step of the sequential deque specification with the same response, for each of
+    push_front / push_back (copy and move), pop_front, pop_back. -/
+theorem C10_apply_is_spec (d : List Int) (r : DReq) (h : r.kind ≠ .clear) :
+    dequeStep d r.toGOp = some (dequeApply d r) := by
+  rw [← dequeStepC_eq_dequeStep d r h]; exact dequeApply_spec d r
+
+/-- The move variants behave as the copying ones. -/
+theorem C10_move_same (d : List Int) (v : Int) :
+    dequeApply d ⟨.pushFrontMove, v⟩ = dequeApply d ⟨.pushFront, v⟩ ∧
+    dequeApply d ⟨.pushBackMove, v⟩ = dequeApply d ⟨.pushBack, v⟩ ∧
+    (∀ e p, dequeCollide e p ⟨.pushFrontMove, v⟩ = dequeCollide e p ⟨.pushFront, v⟩) ∧
+    (∀ e p, dequeCollide e p ⟨.pushBackMove, v⟩ = dequeCollide e p ⟨.pushBack, v⟩) ∧
+    (∀ e i, dequeCollide e ⟨.pushFrontMove, v⟩ i = dequeCollide e ⟨.pushFront, v⟩ i) ∧
+    (∀ e i, dequeCollide e ⟨.pushBackMove, v⟩ i = dequeCollide e ⟨.pushBack, v⟩ i) := by
+  refine ⟨rfl, rfl, fun _ _ => rfl, fun _ _ => rfl, ?_, ?_⟩ <;>
+    (intro e i; obtain ⟨ik, iv⟩ := i; cases e <;> cases ik <;> rfl)
+
+/-- General form (any number `n` of `fc_process` walks before `combining_pass`, `clear` requests allowed, the
+    specification is `Spec.dequeStep` extended with `clear`): every request of the batch gets a response, and the
+    responses and the final deque are those of a sequential execution of SOME permutation of the batch. -/
+theorem C10_session_refines (n : Nat) (d : List Int) (rs : List DReq) :
+    (dequeBatch n d rs).2.length = rs.length ∧
+    ∃ perm : List (DReq × Resp), perm.Perm (rs.zip (dequeBatch n d rs).2) ∧
+      seqRun (fun s (r : DReq) => dequeStepC s r.toGOp) d perm = some (dequeBatch n d rs).1 :=
+  batch_refines dequePart (dequeCollide d.isEmpty) dequeSpec d dequeApply dequeApply_spec
+    (fun p r a b _ _ hc => dequeCollide_noop d p r a b hc) n rs
+
+/-- `C10_session_refines` against `Spec.dequeStep` itself, for batches of push_front / push_back / pop_front /
+    pop_back requests (copy or move; no `clear`, which `Spec.dequeStep` does not have). -/
+theorem C10_session_refines_spec (n : Nat) (d : List Int) (rs : List DReq) (hnc : ∀ r ∈ rs, r.kind ≠ .clear) :
+    (dequeBatch n d rs).2.length = rs.length ∧
+    ∃ perm : List (DReq × Resp), perm.Perm (rs.zip (dequeBatch n d rs).2) ∧
+      seqRun (fun s (r : DReq) => dequeStep s r.toGOp) d perm = some (dequeBatch n d rs).1 := by
+  obtain ⟨hl, perm, hp, hrun⟩ := C10_session_refines n d rs
+  refine ⟨hl, perm, hp, ?_⟩
+  rw [← hrun]
+  apply seqRun_congr
+  intro x hx s
+  have hx' : x.1 ∈ rs := by
+    have : x ∈ rs.zip (dequeBatch n d rs).2 := hp.mem_iff.mp hx
+    obtain ⟨r, a⟩ := x
+    exact (List.of_mem_zip this).1
+  exact (dequeStepC_eq_dequeStep s x.1 (hnc x.1 hx')).symm
+
+/-- C10_batch_refines.  For every deque `d` and every batch `rs` of push_front / push_back / pop_front / pop_back
+    requests (copy or move): the responses produced by `fc_process` (`dequeProcess`) followed by `fc_apply` on the
+    requests it left (`dequeFinish`) are the responses of executing SOME permutation of the batch sequentially on `d`
+    with `Spec.dequeStep`, and the final deque is the final state of that sequential run.
+    (All requests of a batch are pending at the same time, so every permutation respects real time: this is what
+    makes a combiner pass linearizable, see `C10_batch_linearizable`.) -/
+theorem C10_batch_refines (d : List Int) (rs : List DReq) (hnc : ∀ r ∈ rs, r.kind ≠ .clear) :
+    let fin := dequeFinish (dequeProcess d rs).1 rs (dequeProcess d rs).2
+    fin.2.length = rs.length ∧
+    ∃ perm : List (DReq × Resp), perm.Perm (rs.zip fin.2) ∧
+      seqRun (fun s (r : DReq) => dequeStep s r.toGOp) d perm = some fin.1 := by
+  intro fin
+  have hfin : fin = dequeBatch 1 d rs := dequeBatch_one d rs
+  rw [hfin]
+  exact C10_session_refines_spec 1 d rs hnc
+
+/-- A combiner session is linearizable: if `ops` are the history records of the requests of one batch (operations
+    `rs`, observed results = the responses computed by `n` walks of `fc_process` + `combining_pass` on deque `d`) and
+    they overlap pairwise, then `ops` is linearizable to `Spec.deque` started in `d`. -/
+theorem C10_batch_linearizable (n : Nat) (d : List Int) (rs : List DReq) (hnc : ∀ r ∈ rs, r.kind ≠ .clear)
+    (ops : List (OpRec GOp GRet))
+    (hops : ops.map (fun o => (o.op, o.ret)) = (rs.zip (dequeBatch n d rs).2).map (fun p => (p.1.toGOp, p.2)))
+    (hconc : ∀ a ∈ ops, ∀ b ∈ ops, ¬ b.res < a.inv) :
+    LinearizableFrom deque d ops := by
+  obtain ⟨_, perm, hp, hrun⟩ := C10_session_refines_spec n d rs hnc
+  exact linearizable_of_perm [] dequeStep DReq.toGOp d _ _ perm hp hrun ops hops hconc
+
+/-- The same without elimination (`combine`, the default `enable_elimination = false`): requests are applied in
+    publication-list order, the permutation is the identity. -/
+theorem C10_combine_refines (d : List Int) (rs : List DReq) :
+    seqRun (fun s (r : DReq) => dequeStepC s r.toGOp) d (rs.zip (dequeBatch 0 d rs).2) = some (dequeBatch 0 d rs).1 := by
+  induction rs generalizing d with
+  | nil => rfl
+  | cons r rs ih =>
+    have h := dequeApply_spec d r
+    simp only [dequeSpec] at h
+    simp only [dequeBatch, elimPasses, List.map_cons, applyAll, List.zip_cons_cons, seqRun, h, if_true]
+    exact ih (dequeApply d r).1 |>.trans (by simp [dequeBatch, elimPasses])
+
+/-! ### Examples (evaluated by `decide`) -/
+
+/-- Non-empty deque [7]: `push_back 5` then `pop_front` (opposite ends) are NOT collided; the pop gets 7. -/
+example : dequeProcess [7] [⟨.pushBack, 5⟩, ⟨.popFront, 0⟩] = ([7], [none, none]) ∧
+    dequeFinish [7] [⟨.pushBack, 5⟩, ⟨.popFront, 0⟩] [none, none] = ([5], [[1], [1, 7]]) := by decide
+
+/-- Empty deque: the same pair IS collided, the pop gets 5 and the deque is untouched. -/
+example : dequeProcess [] [⟨.pushBack, 5⟩, ⟨.popFront, 0⟩] = ([], [some [1], some [1, 5]]) := by decide
+
+/-- Same end, pop first: collided on a non-empty deque as well. -/
+example : dequeProcess [7] [⟨.popFront, 0⟩, ⟨.pushFront, 5⟩] = ([7], [some [1, 5], some [1]]) := by decide
+
+/-- Same end, push first, EMPTY deque: not collided (the asymmetry); `fc_apply` then gives the same answers. -/
+example : dequeProcess [] [⟨.pushFront, 5⟩, ⟨.popFront, 0⟩] = ([], [none, none]) ∧
+    dequeFinish [] [⟨.pushFront, 5⟩, ⟨.popFront, 0⟩] [none, none] = ([], [[1], [1, 5]]) := by decide
+
+/-- `clear` has no case label: `itPrev` survives it, so the pop before and the push after a `clear` collide. -/
+example : dequeProcess [7] [⟨.popBack, 0⟩, ⟨.clear, 0⟩, ⟨.pushBack, 5⟩] = ([7], [some [1, 5], none, some [1]]) := by
+  decide
+
+/-- After a collision `itPrev` is reset: of pop, push, pop only the first two collide. -/
+example : dequeProcess [7] [⟨.popFront, 0⟩, ⟨.pushFront, 5⟩, ⟨.popFront, 0⟩] =
+    ([7], [some [1, 5], some [1], none]) := by decide
 
 end CdsVerif.Props.C10
